@@ -275,6 +275,42 @@ fn generate(rng: &mut Rng, n: usize, tier: &str, out: &mut dyn Write) {
         }
     }
     line(out, "un neg", &[&Value::Null]);
+    // --- `<` / `>=` on every pair of the temporal-looking strings (same-kind pairs: the Spec orders them by the
+    //     temporal parser's key, e.g. signed and 5-digit years, offsets; other pairs: text)
+    writeln!(out, "#case temporal-cmp").unwrap();
+    let tstrs: Vec<Value> = STRS.iter().filter(|s| s.len() >= 5 && s.as_bytes()[1..].iter().any(|c| *c == b'-' || *c == b':')).map(|s| Value::String(s.to_string())).collect();
+    for a in &tstrs {
+        for b in &tstrs {
+            line(out, "bin lt", &[a, b]);
+            line(out, "bin ge", &[a, b]);
+        }
+    }
+    // --- `=` on composite values is the Kleene AND of the element equalities, whatever the positions:
+    //     [$a,$b] = [$c,$d], {a:$a,b:$b} = {a:$c,b:$d}, nested, `<>` and IN, over {null, 1, 2, 1.0, 'a'}
+    writeln!(out, "#case tuple-eq").unwrap();
+    let dom: Vec<Value> =
+        vec![Value::Null, Value::Int(1), Value::Int(2), Value::Float(1.0), Value::String("a".into())];
+    let mk_map = |x: &Value, y: &Value| {
+        Value::Map([("a".to_string(), x.clone()), ("b".to_string(), y.clone())].into_iter().collect())
+    };
+    for a in &dom {
+        for b in &dom {
+            for c in &dom {
+                for d in &dom {
+                    let (l, r) = (Value::List(vec![a.clone(), b.clone()]), Value::List(vec![c.clone(), d.clone()]));
+                    line(out, "bin eq", &[&l, &r]);
+                    line(out, "bin ne", &[&l, &r]);
+                    line(out, "bin eq", &[&mk_map(a, b), &mk_map(c, d)]);
+                    line(out, "bin in", &[&l, &Value::List(vec![r.clone(), Value::List(vec![d.clone(), c.clone()])])]);
+                    if matches!(a, Value::Null) || matches!(c, Value::Null) {
+                        line(out, "bin ne", &[&mk_map(a, b), &mk_map(c, d)]);
+                        let (nl, nr) = (Value::List(vec![l.clone(), b.clone()]), Value::List(vec![r.clone(), d.clone()]));
+                        line(out, "bin eq", &[&nl, &nr]);
+                    }
+                }
+            }
+        }
+    }
     // --- random
     writeln!(out, "#case random").unwrap();
     let depth = if tier == "thorough" { 3 } else { 2 };
